@@ -339,6 +339,9 @@ stream_step(struct stream *stream)
 		return -1;
 	}
 
+	/* The first event has no previous clock to compare with */
+	int first = (stream->cur_ev == NULL);
+
 	/* Only step the offset if we have loaded an event */
 	if (stream->cur_ev != NULL) {
 		stream->offset += event_size_at(stream, stream->offset);
@@ -369,8 +372,9 @@ stream_step(struct stream *stream)
 
 	int64_t clock = stream_evclock(stream, stream->cur_ev);
 
-	/* Ensure the clock grows monotonically if unsorted flag not set */
-	if (stream->unsorted == 0) {
+	/* Ensure the clock grows monotonically if unsorted flag not set. The
+	 * corrected clock of the first event may well be negative. */
+	if (stream->unsorted == 0 && !first) {
 		if (clock < stream->lastclock) {
 			err("clock goes backwards %"PRIi64" -> %"PRIi64" in stream '%s' at offset %"PRIi64,
 					stream->lastclock,
@@ -381,7 +385,7 @@ stream_step(struct stream *stream)
 		}
 	}
 
-	stream->deltaclock = clock - stream->lastclock;
+	stream->deltaclock = first ? 0 : clock - stream->lastclock;
 	stream->lastclock = clock;
 
 	return 0;
